@@ -28,6 +28,11 @@ import (
 //	   between call and return must be <= one probe timeout (+1 ms). Nothing tighter is asserted
 //	   (the unchanged code returns after 0 ns because held probes carry the balancer context).
 //	   A frozen bubble (mutex deadlock) is reported by the real-time watchdog started outside it.
+//	   The configured bound itself is asserted as well: server.timeouts.shutdown is a drawn part of
+//	   the configuration (unset = documented 30 s, or 1-10 s) and no Stop call may take longer, also
+//	   not when it is smaller than the probe timeout and a probe hangs ("whatever the timing relative
+//	   to ... in-flight probes"), and whatever the peers of the pooled idle connections do (drawn
+//	   peer scripts, conn_test.go).
 //	O2 "no health probe is sent after shutdown returns": the number of probe round-trips that have
 //	   STARTED is sampled by the goroutine that called Stop immediately after Stop returned; after
 //	   ten further intervals of virtual time the number must be unchanged, and no completed probe
@@ -42,24 +47,29 @@ import (
 // ---------------------------------------------------------------------------------------------
 
 type l1Case struct {
-	Strategy   string   `json:"strategy"`
-	N          int      `json:"n"`
-	IntervalS  int      `json:"interval_s"`
-	TimeoutS   int      `json:"timeout_s"`
-	WindowS    int      `json:"passive_window_s"` // 0: passive checks off (a failed probe ejects for 0 s)
-	Probe      []string `json:"probe"`            // per backend: ok | 5xx | unreachable | held | held-release
-	RelMs      []int    `json:"release_ms"`       // held-release: released this long after every tick
-	RelAs      []string `json:"release_as"`       // ok | 5xx
-	Pool       bool     `json:"pool"`
-	MaxIdle    int      `json:"max_idle,omitempty"`
-	Conns      []int    `json:"pool_conns,omitempty"` // backend index each connection is Put for
-	Place      string   `json:"place"`                // construct | first-probe | tick | held | between
-	Tick       int      `json:"tick"`                 // the stop instant is t0 + Tick*interval + OffNs
-	OffNs      int64    `json:"offset_ns"`
-	Stops      int      `json:"stops"`
-	Concurrent bool     `json:"concurrent"`
-	GapMs      []int    `json:"gap_ms,omitempty"` // sequential: virtual pause before call i+1
-	Clients    int      `json:"clients"`
+	Strategy  string   `json:"strategy"`
+	N         int      `json:"n"`
+	IntervalS int      `json:"interval_s"`
+	TimeoutS  int      `json:"timeout_s"`
+	WindowS   int      `json:"passive_window_s"` // 0: passive checks off (a failed probe ejects for 0 s)
+	Probe     []string `json:"probe"`            // per backend: ok | 5xx | unreachable | held | held-release
+	RelMs     []int    `json:"release_ms"`       // held-release: released this long after every tick
+	RelAs     []string `json:"release_as"`       // ok | 5xx
+	Pool      bool     `json:"pool"`
+	MaxIdle   int      `json:"max_idle,omitempty"`
+	Conns     []int    `json:"pool_conns,omitempty"` // backend index each connection is Put for
+	// Peers / PeerDelayMs: per pooled connection, how its other end behaves (conn_test.go)
+	Peers       []string `json:"pool_peers,omitempty"`
+	PeerDelayMs []int    `json:"pool_peer_delay_ms,omitempty"`
+	// ShutdownS: server.timeouts.shutdown of the configuration (0 = not set: documented default 30 s)
+	ShutdownS  int    `json:"shutdown_s"`
+	Place      string `json:"place"` // construct | first-probe | tick | held | between
+	Tick       int    `json:"tick"`  // the stop instant is t0 + Tick*interval + OffNs
+	OffNs      int64  `json:"offset_ns"`
+	Stops      int    `json:"stops"`
+	Concurrent bool   `json:"concurrent"`
+	GapMs      []int  `json:"gap_ms,omitempty"` // sequential: virtual pause before call i+1
+	Clients    int    `json:"clients"`
 	// Breaker: circuit_breaker enabled with the values of the shipped sample file (closed throughout:
 	// transparent for the parked client requests). Rate limiting cannot be hosted here: the limiter's
 	// never-ending janitor must live outside the bubble, the probe checker inside it (stop-pool-history,
@@ -85,6 +95,9 @@ type l1Result struct {
 	Dispatched     int
 	NotDispatched  int
 	Deadlock       string
+	// live: while Stop calls are running, a func() string describing what the pool held (for the real-time
+	// watchdog, should a call freeze the bubble)
+	live atomic.Value
 }
 
 func genL1(rt *rapid.T) l1Case {
@@ -132,8 +145,14 @@ func genL1(rt *rapid.T) l1Case {
 		n := rapid.IntRange(1, 6).Draw(rt, "conns")
 		for i := 0; i < n; i++ {
 			c.Conns = append(c.Conns, rapid.IntRange(0, c.N-1).Draw(rt, "conn_backend"))
+			peer, delay := rapid.SampledFrom(peerKinds).Draw(rt, "conn_peer"), 0
+			if peer == "answers-late" {
+				delay = rapid.SampledFrom([]int{1, 50, 900, 1100, 2500, 60_000}).Draw(rt, "conn_peer_delay_ms")
+			}
+			c.Peers, c.PeerDelayMs = append(c.Peers, peer), append(c.PeerDelayMs, delay)
 		}
 	}
+	c.ShutdownS = rapid.SampledFrom([]int{0, 1, 2, 3, 5, 10}).Draw(rt, "shutdown_timeout")
 	c.Stops = rapid.SampledFrom([]int{1, 1, 2, 2, 3}).Draw(rt, "stops")
 	if c.Stops > 1 {
 		c.Concurrent = rapid.Bool().Draw(rt, "concurrent")
@@ -210,6 +229,12 @@ func (c l1Case) inBubble(fn *lab.FakeNet, r *l1Result) {
 	if c.Breaker {
 		cfg.CircuitBreaker = config.CircuitBreakerConfig{Enabled: true, MaxRequests: 5, IntervalSeconds: 60, TimeoutSeconds: 60, FailureThreshold: 5, SuccessThreshold: 2}
 	}
+	cfg.Server.Timeouts.Shutdown = c.ShutdownS
+	// the statement's bound for a shutdown call: the configured shutdown timeout (documented default 30 s)
+	budget := 30 * time.Second
+	if c.ShutdownS > 0 {
+		budget = time.Duration(c.ShutdownS) * time.Second
+	}
 	if err := cfg.Validate(); err != nil {
 		r.Harness = "config rejected: " + err.Error()
 		return
@@ -242,11 +267,31 @@ func (c l1Case) inBubble(fn *lab.FakeNet, r *l1Result) {
 			lb.Stop()
 			return
 		}
-		for _, b := range c.Conns {
-			pc := &poolConn{backend: b}
+		for i, b := range c.Conns {
+			pc := newPoolConn(b, c.Peers[i], c.PeerDelayMs[i])
 			pc.accepted = pool.Put(lab.BackendHost(b), pc)
 			conns = append(conns, pc)
 		}
+		// whatever a misbehaving shutdown may still be waiting for on a connection ends with the case
+		defer func() {
+			for _, pc := range conns {
+				pc.abandon()
+			}
+		}()
+	}
+	// pooled: for a violation message, what the pool held idle and what it did with it
+	pooled := func() string {
+		if !c.Pool {
+			return "websocket pool off"
+		}
+		var cs []*poolConn
+		var ids []int
+		for i, pc := range conns {
+			if pc.accepted {
+				cs, ids = append(cs, pc), append(ids, i)
+			}
+		}
+		return describePooled(cs, ids)
 	}
 	openConns := func() int {
 		n := 0
@@ -310,6 +355,8 @@ func (c l1Case) inBubble(fn *lab.FakeNet, r *l1Result) {
 	}
 	arrivedAtStop := fn.Arrivals()
 
+	r.live.Store(func() string { return "Stop running: " + pooled() })
+	defer r.live.Store(func() string { return "" })
 	recs := make([]*stopRec, c.Stops)
 	var seq atomic.Int32
 	call := func(i int) {
@@ -335,13 +382,13 @@ func (c l1Case) inBubble(fn *lab.FakeNet, r *l1Result) {
 			all = all && recs[i].returned.Load()
 		}
 		if !all {
-			time.Sleep(to + eps)
+			time.Sleep(min(to, budget) + eps)
 			synctest.Wait()
 		}
 		for i := from; i < to_; i++ {
 			rec := recs[i]
 			if !rec.returned.Load() {
-				r.Viol = fmt.Sprintf("Stop call #%d (called at t0+%v) has not returned %v of virtual time later (probe timeout %v): shutdown does not complete", i+1, rec.CallAt, time.Since(t0)-rec.CallAt, to)
+				r.Viol = fmt.Sprintf("Stop call #%d (called at t0+%v) has not returned %v of virtual time later (probe timeout %v, configured shutdown timeout %v): shutdown does not complete; %s", i+1, rec.CallAt, time.Since(t0)-rec.CallAt, to, budget, pooled())
 				return false
 			}
 			if rec.Panic != "" {
@@ -352,7 +399,11 @@ func (c l1Case) inBubble(fn *lab.FakeNet, r *l1Result) {
 				r.MaxBlocked = d
 			}
 			if rec.RetAt-rec.CallAt > to+eps {
-				r.Viol = fmt.Sprintf("Stop call #%d took %v of virtual time (called at t0+%v, returned at t0+%v); the probe timeout is %v", i+1, rec.RetAt-rec.CallAt, rec.CallAt, rec.RetAt, to)
+				r.Viol = fmt.Sprintf("Stop call #%d took %v of virtual time (called at t0+%v, returned at t0+%v); the probe timeout is %v; %s", i+1, rec.RetAt-rec.CallAt, rec.CallAt, rec.RetAt, to, pooled())
+				return false
+			}
+			if rec.RetAt-rec.CallAt > budget {
+				r.Viol = fmt.Sprintf("Stop call #%d took %v of virtual time (called at t0+%v, returned at t0+%v); the configured shutdown timeout is %v; %s", i+1, rec.RetAt-rec.CallAt, rec.CallAt, rec.RetAt, budget, pooled())
 				return false
 			}
 		}
@@ -445,13 +496,14 @@ func (c l1Case) inBubble(fn *lab.FakeNet, r *l1Result) {
 func TestC19StopSchedules(t *testing.T) {
 	const name = "stop-vs-probe-schedule"
 	sub := lab.Sub(name, "rapid schedules in virtual time against the real balancer with Helios's own probe ticker: 5 strategies x 1-4 backends x interval 2-10 s x timeout 1..interval-1 x passive window {off,1,3,15 s} x circuit breaker {off, on with the sample file's values} x per-backend probe script {200, 5xx, unreachable, held until cancelled, held until released after a drawn delay} "+
-		"x optional websocket pool (max_idle 1-4) with 1-6 fake connections Put before the stop x stop instant {right after construction without letting the probe goroutine run, after the first probe round was launched, tick k=1..3 with offset -1 ms/-1 ns/0/+1 ns/+1 ms, while probes are held (offset in (0,timeout) incl. the edges), between ticks} "+
-		"x 1-3 Stop calls concurrent or sequential (gaps 0..interval+1 ms) x 0-2 client requests parked inside backends across the stop; oracle: every Stop returns within one probe timeout (+1 ms) of virtual time and does not panic, the count of started probe round-trips sampled right after the first return is unchanged ten intervals later and no logged probe starts after it, "+
+		"x optional websocket pool (max_idle 1-4) with 1-6 fake connections Put before the stop, the other end of each following a drawn script (answers a Close frame at once or late, silent, not reading, chatty, closed, reset; blocking reads / writes honour the connection's deadlines in virtual time) x server.timeouts.shutdown {unset = 30 s, 1, 2, 3, 5, 10 s} x stop instant {right after construction without letting the probe goroutine run, after the first probe round was launched, tick k=1..3 with offset -1 ms/-1 ns/0/+1 ns/+1 ms, while probes are held (offset in (0,timeout) incl. the edges), between ticks} "+
+		"x 1-3 Stop calls concurrent or sequential (gaps 0..interval+1 ms) x 0-2 client requests parked inside backends across the stop; oracle: every Stop returns within one probe timeout (+1 ms) of virtual time and within the configured shutdown timeout and does not panic, the count of started probe round-trips sampled right after the first return is unchanged ten intervals later and no logged probe starts after it, "+
 		"every connection the pool accepted is closed at the first return, parked client requests complete with the backend's answer when released afterwards; non-trivial = at least one probe in flight when Stop is called, or the stop instant within 1 ms of a probe tick (t0 counts as tick 0)")
 	sub.NontrivialFloor(0.60)
 	sub.Floor("probe-in-flight-at-stop", 0.25)
 	sub.Floor("at-tick-exactly", 0.05)
 	sub.Floor("pool", 0.15)
+	sub.Floor("pool,unresponsive-peer", 0.15)
 	sub.Floor("stops>1", 0.30)
 	sub.Floor("clients-in-flight", 0.25)
 	lab.Assume("L1: scripted RoundTripper replaces http.Transport (proxied path) and http.DefaultTransport (probes); virtual time via testing/synctest with Helios's own ticker; the shutdown-timeout bound of the statement is taken as one probe timeout for lb.Stop(); goroutines inside a bubble mostly run one at a time, so same-instant overlaps are sampled, not enumerated")
@@ -460,7 +512,12 @@ func TestC19StopSchedules(t *testing.T) {
 		var r l1Result
 		var stage atomic.Value
 		stage.Store("running")
-		wd := lab.StartWatchdog(t.Name(), name, lab.NoProgress, func() any { return map[string]any{"case": c, "stage": stage.Load()} })
+		wd := lab.StartWatchdogDetail(t.Name(), name, lab.NoProgress, func() any { return map[string]any{"case": c, "stage": stage.Load()} }, func() string {
+			if f, ok := r.live.Load().(func() string); ok {
+				return f()
+			}
+			return ""
+		})
 		fn := lab.NewFakeNet()
 		var deadlock string
 		var panicked any
@@ -487,7 +544,16 @@ func TestC19StopSchedules(t *testing.T) {
 		}
 		if c.Pool {
 			labels = append(labels, "pool")
+			deaf := false
+			for i, p := range c.Peers {
+				labels = append(labels, "peer="+p)
+				deaf = deaf || unresponsive(p, c.PeerDelayMs[i])
+			}
+			if deaf {
+				labels = append(labels, "pool,unresponsive-peer")
+			}
 		}
+		labels = append(labels, fmt.Sprintf("shutdown_timeout=%ds", c.ShutdownS))
 		if c.Breaker {
 			labels = append(labels, "on=circuit_breaker")
 		}
